@@ -9,6 +9,7 @@ from __future__ import annotations
 
 import ast
 import inspect
+import re
 from typing import Optional, Sequence, Tuple, Union, TYPE_CHECKING
 
 from pydoctor import astbuilder, model, epydoc2stan, astutils, extensions
@@ -144,7 +145,10 @@ def deprecatedToUsefulText(ctx:model.Documentable, name:str, deprecated:ast.Call
     if replacement is not None and not validate_identifier(replacement):
         # The replacement is not an identifier, so don't even try to resolve it.
         # By adding extras backtics, we make the replacement a literal text.
-        replacement = replacement.replace('\n', ' ')
+        # Nothing in it may end the literal early or keep it from starting: whitespace is normalized
+        # (docutils splits lines like str.splitlines() does, not only at '\n') and runs of backticks are broken up.
+        replacement = ' '.join(replacement.split())
+        replacement = re.sub(r'`(?=`)', '` ', replacement)
         replacement = f"`{replacement}`"
     
     if replacement is not None:
